@@ -558,3 +558,61 @@ def stable(f, X, p_from, p_to, content=False, ignore=()):
         if f.cfg.exists_path(src, m, src_inclusive=False) and f.cfg.exists_path(m, p_to, src_inclusive=False):
             return False
     return True
+
+
+# ---- facts carried by a local flag -------------------------------------------------------------
+def flag_true_defs(f, cond, k):
+    """If (cond, k) is the edge on which a local boolean/integer flag is non-zero, return the definitions of the flag that can
+    make it non-zero, as rd.local_defs entries (those assigning a constant 0/false are left out).  None if the condition is not
+    such a test or a definition is not understood.  A fact that holds at every returned definition holds wherever the flag is
+    seen true (the flag is a witness of having passed one of them)."""
+    from . import rd
+    t = simple_test(f, cond)
+    if t is None:
+        return None
+    decl, tag = t
+    if (tag == 'nz') != (k == 0):
+        return None
+    out = []
+    for d in rd.local_defs(f, decl):
+        if d['kind'] in ('init', '=') and d['rhs'] is not None:
+            v = f.s(f.strip_casts(d['rhs']))
+            if v is not None and v.get('cv') == 0:
+                continue
+            if v is not None and v['k'] == 'CXXBoolLiteralExpr' and not v.get('v'):
+                continue
+            out.append(d)
+        elif d['kind'] == 'init' and d['rhs'] is None:
+            return None         # uninitialised
+        else:
+            return None
+    return out
+
+
+def guards_incl_flags(f, p):
+    """controlling_branches(p) extended with the guards common to all true-definitions of every flag tested on the way"""
+    base = list(f.cfg.controlling_branches(p))
+    extra = []
+    for cond, k, b in base:
+        defs = flag_true_defs(f, cond, k)
+        if not defs:
+            continue
+        common = None
+        for d in defs:
+            g = set((c, kk) for c, kk, bb in f.cfg.controlling_branches(d['point'])) if d['point'] is not None else set()
+            common = g if common is None else (common & g)
+        for c, kk in (common or ()):
+            extra.append((c, kk, None))
+    return base + extra
+
+
+def dominated_incl_flags(f, a_pts, p):
+    """some point of a_pts lies on every path to p — directly, or because p is behind a flag all of whose true-definitions are
+    dominated by a point of a_pts"""
+    if any(f.cfg.dominates(a, p) for a in a_pts):
+        return True
+    for cond, k, b in f.cfg.controlling_branches(p):
+        defs = flag_true_defs(f, cond, k)
+        if defs and all(d['point'] is not None and any(f.cfg.dominates(a, d['point']) for a in a_pts) for d in defs):
+            return True
+    return False
